@@ -196,7 +196,7 @@ theorem ghost_coinsOK (H : RemHyp c w addrs own' X) (hKN : KeysNodup c.own) (hS 
 
 /-- the node finds every transaction the ghost store has a credit of -/
 theorem ghost_find (H : RemHyp c w addrs own' X) (hKN : KeysNodup c.own) (hk : k + 1 ≤ X.length)
-    (hS : ScanJS c w g X k) (hn : KeysNodup g.credits) {n : Node} {b : Block} (hext : n.chain = X ++ [b])
+    (hS : ScanJS c w g X k) (hn : KeysNodup g.credits) {n : Node} {post : List Block} (hext : n.chain = X ++ post)
     (hVn : ChainValid c.own n.chain) :
     ∀ id, existCreditFromTx g id = true → (n.fetchTx id).isSome = true := by
   intro id h
@@ -212,7 +212,7 @@ theorem real_own (H : RemHyp c w addrs own' X) (hKN : KeysNodup c.own) (hk : k +
     (hS : ScanJS c w g X k) (hn : KeysNodup g.credits) {s : Store} (hns : KeysNodup s.credits)
     (hcred : ∀ ck, AMap.get s.credits ck = (joinBookK c w own' X k).credits ck ∨
       (AMap.get s.credits ck = none ∧ ∃ cr, (joinBookK c w own' X k).credits ck = some cr ∧ isW c.own w cr.sh = true))
-    {n : Node} {b : Block} (hext : n.chain = X ++ [b]) (hVn : ChainValid c.own n.chain)
+    {n : Node} {post : List Block} (hext : n.chain = X ++ post) (hVn : ChainValid c.own n.chain)
     {ready : List Wid} (hnr : ready.contains w = false) :
     ∀ (id : TxId) (pt : Tx) (idx : Nat) (o : Out) (w' : Wid) (ch : Bool), existCreditFromTx g id = true →
       existCreditFromTx s id = false → n.fetchTx id = some pt → pt.outs[idx]? = some o → o.cls ≠ .raw →
